@@ -189,6 +189,11 @@ theorem step_inv {s s' : St} {a : Step} (h : Inv s) (hs : step s a = some s') : 
         have := h.authedRet j hj
         rw [hret] at this; cases this
     · cases hs
+  | mainGiveUp =>
+    simp only [step] at hs
+    split at hs
+    · cases hs; exact { h with }
+    · cases hs
   | srvDone i =>
     simp only [step] at hs
     split at hs
@@ -251,6 +256,28 @@ theorem C09_single {k : Nat} {s : St} (h : Reachable k s) {c : Nat} (hr : s.retu
       exact (Option.some.inj this).symm
   · rintro rfl
     exact Or.inr (hi.winnerHanded i hw)
+
+/-- **Failure is reported only when nothing was established.** If `ProbeAndDial` returned "all probes failed", then at
+that moment no attempt had a connection: every dial had failed (none was still in flight, none was claimed or closed
+as a loser, since a loser implies a winner in the channel, which is taken first). -/
+theorem C09_gives_up_only_without_connection {s s' : St} (hs : step s .mainGiveUp = some s') :
+    ∀ i, i < s.tasks.length → task s i = .failed ∨ task s i = .cancelled ∨ task s i = .closedLoser := by
+  simp only [step] at hs
+  split at hs
+  · rename_i hc
+    intro i hi
+    have hall := hc.2.2.2
+    rw [List.all_eq_true] at hall
+    have hm : s.tasks[i] ∈ s.tasks := List.getElem_mem hi
+    have := hall _ hm
+    simp only [Bool.or_eq_true, beq_iff_eq] at this
+    have ht : task s i = s.tasks[i] := by simp [task, taskL, hi]
+    rw [ht]
+    rcases this with (h | h) | h
+    · exact Or.inl h
+    · exact Or.inr (Or.inl h)
+    · exact Or.inr (Or.inr h)
+  · cases hs
 
 /-- at any moment at most one attempt has been handed to the caller (exactly one "won") -/
 theorem C09_one_winner {k : Nat} {s : St} (h : Reachable k s) {i j : Nat} (hi : task s i = .handed)
